@@ -28,6 +28,11 @@ KEY_N4 = "connect-while-resetChannel-queued"
 KEY_N2 = "destroy-with-connection-while-connector-functor-queued"
 KEY_F13 = "foreign-destroy-races-loop-thread"
 KEY_REL = "user-releases-last-reference-of-live-connection"
+KEY_E2 = "client-destroyed-then-loop-destroyed"
+# the three asserts by which ~EventLoop (pendingFunctors_ / timers destroyed unrun) brings a client's leftovers down
+E2_ASSERTS = ("assert:state__==_kDisconnected at=muduo::net::TcpConnection::~TcpConnection",
+              "assert:!addedToLoop_ at=muduo::net::Channel::~Channel",
+              "assert:!channel_ at=muduo::net::Connector::~Connector")
 
 
 def lst(x):
@@ -118,6 +123,11 @@ def oracle(case, lines):
             if k == "REL" and destroyed and user not in (None, "-") and prev is not None and int(user) < len(prev.cs) and \
                     prev.cs[int(user)].split("/")[0] in ("2", "3"):
                 sig(KEY_REL, i)
+            # REVIEW_E E-2: the EventLoop is destroyed after the client (scope exit) while functors / timers that ~TcpClient or the
+            # last loop iteration queued are still pending: they are destroyed unrun
+            if k == "LOOPEND" and prev is not None and prev.cl == "x" and (prev.pend > 0 or prev.tm) and \
+                    ln.startswith("crashed") and any(a in ln for a in E2_ASSERTS):
+                sigs[KEY_E2] = i
         if ln.startswith("crashed"):
             fail(i, "crash", "op %d (%s): %s" % (i, op, ln))
             break
@@ -353,6 +363,8 @@ def known_key_for(fails, sigs, release=False):
     the latest such pattern is taken as the cause.  release: the -DNDEBUG build, where the failed asserts of F-10 / F-17
     show as a leaked, unwatched socket instead."""
     i, kind, msg = fails[0]
+    if kind == "crash" and sigs.get(KEY_E2) == i:
+        return KEY_E2          # the crash is in ~EventLoop itself, with one of its three asserts
     prio = {KEY_N2: 2, KEY_F13: 1}
     allowed = []
     if kind == "crash":
@@ -429,7 +441,10 @@ def scenarios():
              "xdisconnect": ["XDF", "XDR", "RUN", "DOWN", "RUN"],
              "destroy": ["DESTROY", "RUN", "EVW 0 0", "RUN", "DOWN", "RUN", "REL", "TF", "RUN"],
              "destroy_late": ["DESTROY", "EVW 0 0", "RUN", "RUN", "TF", "DOWN", "RUN", "REL", "RUN"],
-             "xdestroy": ["XYR", "XYD", "RUN", "RUN", "DOWN", "RUN", "REL", "TF", "RUN"]}
+             "xdestroy": ["XYR", "XYD", "RUN", "RUN", "DOWN", "RUN", "REL", "TF", "RUN"],
+             "destroy_loopend": ["DESTROY", "LOOPEND", "RUN", "TF"],
+             "destroy_run_loopend": ["DESTROY", "RUN", "LOOPEND", "RUN"],
+             "destroy_drain_loopend": ["DESTROY", "RUN", "RUN", "REL", "TF", "LOOPEND", "RUN", "LOOPEND"]}
     for pn, pre in progress.items():
         for tn, tail in tails.items():
             add("%s_%s" % (pn, tn), pre + tail)
@@ -554,7 +569,7 @@ def run(chk, replay=None):
     chk.cov["distinct_nontrivial"] = len(sigs_seen)
     chk.cov["rule"] = ("corpus (witnesses of the findings) + scripted-server scenarios (up / down for k attempts up to and beyond the cap / "
                        "up later / closes at once; every errno of connect and SO_ERROR; stop, disconnect, destroy, foreign halves at every "
-                       "point of progress) + ALL transitions from every state reachable within depth-1 ops over a 27-op alphabet "
+                       "point of progress; ~EventLoop after the client at every point of progress) + ALL transitions from every state reachable within depth-1 ops over a 28-op alphabet "
                        "(breadth-first over the extracted model, states identified up to a clock shift, restricted to what the property "
                        "text allows) + random longer histories in 6 profiles; non-trivial = at least one connect attempt; distinct by the "
                        "sequence of (op kind, kinds of events produced, timer armed)")
@@ -637,5 +652,8 @@ def run(chk, replay=None):
         "Idle at connect(): state kDisconnected, no channel, no connection, no connect() in flight, no retry timer pending, delay at its initial value (the theorems' hypothesis; the property text's weaker precondition gives the recorded findings)",
         "the loop is not stalled across a timer deadline while resetChannel / (after ~TcpClient) startInLoop / stopInLoop are still queued (`timely`)",
         "destruction on the loop thread; with a connection only while no functor bound to the raw Connector is queued (`destroy_ok`)",
+        "the EventLoop outlives the client's cleanup (`loop_outlives_cleanup`): when it is destroyed the connector's channel has been reset and every "
+        "connection object has been through connectDestroyed (true once functor queue and timer queue have drained); the EventLoop is destroyed "
+        "after the TcpClient and after the user dropped his TcpConnectionPtrs (Rejected otherwise)",
         "the scripted kernel is consistent: one answer per ::connect, SO_ERROR as scripted, a descriptor closed once is gone",
         "the model is tied to the code by differential execution (testing), not by a verified C++ semantics"])
